@@ -18,7 +18,7 @@ RULE = (
     "kind (destinations whose runner-up is within 1e-9 rad are skipped); identity when remapped onto the source's own "
     "elements; for IDW the full weight matrix is extracted with one call on an identity-matrix field and must be a convex "
     "combination supported on the brute-force k nearest, non-increasing with distance, and every other field must equal "
-    "data @ weights. Non-trivial = element counts coincide, or data have leading dimensions, or the data kind differs from "
+    "data @ weights. Destinations include a second Grid of the source mesh (plain, with other supplied face centres, or with its own supplied edge numbering); either grid may supply its own edge table and Cartesian node coordinates on a sphere of radius 1, 2.5 or 6371. Non-trivial = element counts coincide, or data have leading dimensions, or the data kind differs from "
     "the destination kind, or centres are supplied; distinct by case hash."
 )
 ASSUMPTIONS = [
